@@ -8,6 +8,7 @@ import (
 	"go/constant"
 	"go/types"
 	"sort"
+	"strconv"
 	"strings"
 
 	"golang.org/x/tools/go/ssa"
@@ -26,6 +27,9 @@ func calleeMatches(cc *ssa.CallCommon, pattern string) bool {
 	lit := ""
 	if k := strings.Index(pattern, "(\""); k >= 0 && strings.HasSuffix(pattern, "\")") {
 		lit = pattern[k+2 : len(pattern)-2]
+		if u, err := strconv.Unquote("\"" + lit + "\""); err == nil {
+			lit = u
+		}
 		pattern = pattern[:k]
 	}
 	if !strings.Contains(name, pattern) {
